@@ -100,6 +100,12 @@ theorem points_distinct (i : Inst) (hi : i ∈ Generated.C14.instances) :
   obtain ⟨_, h2, _, h4, _⟩ := parts (instances_ok i hi)
   exact ModemProofs.points_distinct i.lo i.hi false i.table.b i.table.pts h2 h4
 
+/-- bijective labels and a positive lower bound `lo` on every pairwise squared distance (used by C09) -/
+theorem labels_and_spacing (i : Inst) (hi : i ∈ Generated.C14.instances) :
+    labelsOk i.table = true ∧ 0 < i.lo ∧ i.table.pts.Pairwise (fun p q => i.lo ≤ dist2 p q.re q.im) := by
+  obtain ⟨h1, h2, _, h4, _⟩ := parts (instances_ok i hi)
+  exact ⟨h1, h2, (pairsOk_sound i.lo i.hi false i.table.b i.table.pts h4).imp (fun hpq => hpq.1)⟩
+
 /-- Gray requested (and not a listed finding): any two points within the minimum distance differ in
 exactly one label bit -/
 theorem gray_neighbours (i : Inst) (hi : i ∈ Generated.C14.instances) (hg : i.gray = true)
